@@ -1563,6 +1563,16 @@ impl<'a> Gen<'a> {
                 self.declare(&nm, T::Num, false);
             }
         }
+        if self.f.scope_stress {
+            // globals named like the first names a renamer hands out (read and written while no local shadows them)
+            for g in ["a", "b", "c", "aa"] {
+                if self.r.bool() {
+                    stmts.push(Stmt::Assign { targets: vec![name(g)], values: vec![num(self.r.below(9) as f64)] });
+                    stmts.push(Stmt::Call(call("sink", vec![name(g)])));
+                    self.declare(g, T::Num, true);
+                }
+            }
+        }
         while self.budget > 0 {
             self.stmt(&mut stmts, 0);
         }
